@@ -110,13 +110,16 @@ DecodeFrame(c, k, f) ==
 CInit(k) == /\ cfg = k /\ enc = Ctx0 /\ dec = Ctx0 /\ wire = <<>> /\ sent = <<>>
             /\ recvd = <<>> /\ damaged = FALSE /\ closed = FALSE /\ whole = 0
 
+\* the writer's context after it has written m as frame f
+EncAfter(c, k, m, f) == IF f.k = "cont" THEN [c EXCEPT !.index = @ + Len(m.ents)]
+                        ELSE IF f.k = "full" /\ k.compact THEN CtxOf(m) ELSE c
+
 \* the writer puts message m on the stream as frame f
 SendFrame(m, f) ==
   /\ ~damaged
   /\ IsEncoding(enc, cfg, m, f)
   /\ wire' = Append(wire, f)
-  /\ enc' = (IF f.k = "cont" THEN [enc EXCEPT !.index = @ + Len(m.ents)]
-             ELSE IF f.k = "full" /\ cfg.compact THEN CtxOf(m) ELSE enc)
+  /\ enc' = EncAfter(enc, cfg, m, f)
   /\ sent' = Append(sent, m)
   /\ UNCHANGED <<cfg, dec, recvd, damaged, closed, whole>>
 
